@@ -121,6 +121,11 @@ class Opaque:
         return self.D[0](x)
 
 
+class CalleePrecondition(Exception):
+    """the code under contract called a user-supplied (uninterpreted) function with arguments outside that function's
+    declared domain — a violation by the caller, not a checker error"""
+
+
 class OpaqueFn:
     """opaque function of several array arguments with an array result.
     F(*args) = reshape(Opaque(concat(flatten(args))))"""
@@ -136,7 +141,9 @@ class OpaqueFn:
     def __call__(self, *args):
         flat = [jnp.reshape(jnp.asarray(a, dtype=float), (-1,)) for a in args]
         for a, s in zip(args, self.in_shapes):
-            assert tuple(jnp.shape(a)) == s, (self.name, jnp.shape(a), s)
+            if tuple(jnp.shape(a)) != s:
+                raise CalleePrecondition(f"user function {self.name} declared for an argument of shape {s} is called with "
+                                         f"shape {tuple(jnp.shape(a))}")
         y = self.F(jnp.concatenate(flat)) if flat else self.F(jnp.zeros((0,)))
         return jnp.reshape(y, self.out_shape)
 
